@@ -2,6 +2,7 @@ import RscelModel.Driver.Wire
 import RscelModel.Model.Conv
 import RscelModel.Model.WF
 import RscelModel.Driver.AstJson
+import RscelModel.Driver.C02Spec
 open Rscel
 
 def handle (line : String) : String :=
@@ -50,6 +51,7 @@ def handle (line : String) : String :=
         | .ok a => pure (Wire.showOut (execProg (stdBuiltins 0) env (compileProgram (stdBuiltins 0) a)))) with
       | some r => r
       | none => "bad-request"
+    else if cmd == "c02spec" then C02.specAnswer args
     else if cmd == "wf" then
       match Wire.parseVal args with
       | some (.code c, _) => wfDiag c
